@@ -2,6 +2,7 @@
 package core
 
 import (
+	"bytes"
 	"bufio"
 	"encoding/hex"
 	"encoding/json"
@@ -298,6 +299,31 @@ type Result struct {
 	// is given to the MODEL; they carry outputs of the implementation (e.g. a selection result to be
 	// judged by the model's executable property checkers). Each comes with the line the Go side answers.
 	Inserted map[int][]Inserted
+	// key buffers handed to the implementation during the current op (see CallerKey)
+	callerKeys [][]byte
+}
+
+// CallerKey returns a private copy of k to be passed to the implementation as a key. The copy is a buffer the CALLER owns: Scribble
+// overwrites it once the call has returned, as a caller that builds all its keys in one reused buffer would. An API taking []byte keys
+// must not keep a reference to them; an implementation that aliases the caller's buffer (unsafe.String, storing the slice) then sees its
+// stored key change and the next observations differ. Values are not treated this way: several components retain value slices by design.
+func (r *Result) CallerKey(k []byte) []byte {
+	if k == nil {
+		return nil
+	}
+	c := append(make([]byte, 0, len(k)), k...)
+	r.callerKeys = append(r.callerKeys, c)
+	return c
+}
+
+// Scribble overwrites every buffer handed out by CallerKey since the last call.
+func (r *Result) Scribble() {
+	for _, k := range r.callerKeys {
+		for i := range k {
+			k[i] ^= 0xA5
+		}
+	}
+	r.callerKeys = r.callerKeys[:0]
 }
 
 // Inserted is an op inserted into the model's history, with the Go-side answer line.
@@ -625,3 +651,25 @@ func Pick[T any](rng *rand.Rand, xs []T) T { return xs[rng.Intn(len(xs))] }
 
 // Chance returns true with probability num/den.
 func Chance(rng *rand.Rand, num, den int) bool { return rng.Intn(den) < num }
+
+// NilValue is the wire representation of the UNTYPED nil value handed to a cache (Put(key, nil, size): a cache used as a set).
+// The models treat values as opaque byte strings, so a reserved byte string stands for it; ToValue / FromValue translate at the
+// boundary of the implementation.
+var NilValue = []byte{0x00, 'n', 'i', 'l'}
+
+// ToValue turns a wire value into what is passed to the implementation.
+func ToValue(b []byte) interface{} {
+	if bytes.Equal(b, NilValue) {
+		return nil
+	}
+	return b
+}
+
+// FromValue turns a value returned by the implementation (found) into its wire form; ok=false if it is neither nil nor a []byte.
+func FromValue(v interface{}) ([]byte, bool) {
+	if v == nil {
+		return NilValue, true
+	}
+	b, ok := v.([]byte)
+	return b, ok
+}
